@@ -707,7 +707,7 @@ func init() {
 		Rule: "crash/termination monitor in journalled worker processes: every input goes through Parse+Execute (VM hook: executed instructions <= instructions in the program, pc inside the code), Interpret, Unmarshal and one of ParseFile/InterpretFile/UnmarshalFile (a goroutine panic kills the worker; the parent finds the case in the journal and re-runs it alone). " +
 			"Inputs: fixed lists (limit scaling around operand depth 1024, 1024 locals, 16 nested blocks, paren nesting to 10^4, jump distance 65528..65542 sized exactly in code bytes; invalid and extreme literals in 8 contexts; out-of-domain operands incl. negative repeat counts and block values on every operator; every single-byte and single-token damage of 6 seed programs) " +
 			"and random ones (bytes, text soup, token sequences, generated programs with byte/token damage, hostile layout). A per-case watchdog identifies deadlocks from goroutine dumps. " +
-			"distinct = hash of input; non-trivial = the input compiled, or was rejected with a diagnostic Also: the operand stack filled to the limit by each kind of pushing instruction (constant, 0/1/true/false/nil shortcuts, variable read, field read, float, string) at depths 1016..1030 and after 1021..1024 variables; programs that reach the struct-binding layer of Unmarshal with an unexported tagged field in the target; every prefix of seed programs with multi-byte characters (input ending inside a character of a comment, string or stray character); files of another kind as source text (this library's bytecode dumps, gzip/ELF/zip/PNG/PDF headers, UTF-16 text, shebang lines, JSON, XML, YAML); a read handing out data together with a real error in a quarter of the file-variant calls; a program executed and dumped again after a Dump whose destination failed at its k-th write, for every k. Operators refusing hostile string operands (runs of continuation bytes, cut characters, 0xFF, NULs, format verbs, long multi-byte text); unresolved identifiers next to field and child keys of 1..300 bytes.",
+			"distinct = hash of input; non-trivial = the input compiled, or was rejected with a diagnostic Also: the operand stack filled to the limit by each kind of pushing instruction (constant, 0/1/true/false/nil shortcuts, variable read, field read, float, string) at depths 1016..1030 and after 1021..1024 variables; programs that reach the struct-binding layer of Unmarshal with an unexported tagged field in the target; every prefix of seed programs with multi-byte characters (input ending inside a character of a comment, string or stray character); files of another kind as source text (this library's bytecode dumps, gzip/ELF/zip/PNG/PDF headers, UTF-16 text, shebang lines, JSON, XML, YAML); a read handing out data together with a real error in a quarter of the file-variant calls; a program executed and dumped again after a Dump whose destination failed at its k-th write, for every k. Operators refusing hostile string operands (runs of continuation bytes, cut characters, 0xFF, NULs, format verbs, long multi-byte text); unresolved identifiers next to field and child keys of 1..300 bytes. At each limit (14..17 nested blocks, 1021..1024 variables in a block or at toplevel) every kind of statement and runtime event (unresolved identifier, division by zero, type error, duplicate child, one more block / variable, field / TYPE / NAME reads, each form of bind).",
 		Assumptions:   []string{"inputs whose legitimate result is a string beyond 2^16..2^20 bytes are skipped (property exclusion); nesting capped at 10^4"},
 		MinNontrivial: 1000,
 		Run: func(c *core.Ctx) {
